@@ -237,6 +237,8 @@ def replay(prop, path, work, seed):
         return replay_crash(prop, path, rp, work, seed)
     if rp.get("kind") == "conc":
         return replay_conc(prop, path, rp, work, seed)
+    if rp.get("kind") == "fault":
+        return replay_fault(prop, path, rp, work, seed)
     if rp.get("kind") == "locks":
         return replay_locks(prop, path, rp, work, seed)
     if rp.get("kind", "history") != "history":
@@ -277,6 +279,25 @@ def replay_convert(prop, path, rp, work, seed):
     return 0
 
 
+def replay_fault(prop, path, rp, work, seed):
+    ovf, counts = rewrite_vfs(work)
+    vhx = vlib.build_harness(work, tags="verif vfs", overlay=ovf)
+    pf, tf = work.path("fault-replay.ndjson"), work.path("fault-replay-trace.ndjson")
+    vlib.write_programs(pf, [rp["program"]])
+    rc, out, dt = vlib.run([vhx, "fault", "-programs", pf, "-o", tf, "-seed", str(rp.get("seed", seed)), "-at", str(rp["fault_at_fs_call"])], timeout=3000, check=False,
+                           env=dict(os.environ, TMPDIR=work.sub("roots")))
+    if rc != 0:
+        raise Inconclusive("fault harness failed:\n" + out[-3000:])
+    v = vlib.validate(work, "fault-replay", tf, {"FAULT"})
+    for f in v["fails"]:
+        log("  trace %s event %d (%s): clauses %s" % (f["trace"], f["i"], f["op"], ",".join(f["clauses"])))
+    if v["fails"]:
+        print("VIOLATION property=%s replay=%s" % (prop, path))
+        return 1
+    print("replay passes: the history with the fault at file system call %d is accepted" % rp["fault_at_fs_call"])
+    return 0
+
+
 def replay_crash(prop, path, rp, work, seed):
     ovf, counts = rewrite_vfs(work)
     vhx = vlib.build_harness(work, tags="verif vfs", overlay=ovf)
@@ -303,6 +324,53 @@ def replay_crash(prop, path, rp, work, seed):
 STORES3 = ["mem", "dir", "memdir"]
 
 
+def fault_extras(scs):
+    """Histories on the directory store during which exactly one mutating file system call of the store fails once (harness
+    command `fault`, vfs overlay): returns an extras function for histories()."""
+    def fn(work, prop, tier, seed):
+        import re
+        quick = tier == "quick"
+        vh = vlib.build_harness(work)
+        ovf, counts = rewrite_vfs(work)
+        vhx = vlib.build_harness(work, tags="verif vfs", overlay=ovf)
+        events = runs = 0
+        violations, kinds = [], {}
+        for sc in scs:
+            num, depth = sc["num"][0 if quick else 1], sc["depth"][0 if quick else 1]
+            cat = vlib.catalogue(work, vh, sc["name"], sc["contents"], sc["algs"], seed, cfg=sc_cfg(sc), nrepos=sc.get("nrepos", 1))
+            ops_lists, gen = vlib.generate(work, sc["name"], cat, sc["profile"], depth, num, seed, vlib.known_open_names())
+            programs = mk_programs(sc, ops_lists)
+            pf, tf = work.path("fault-%s.ndjson" % sc["name"]), work.path("fault-trace-%s.ndjson" % sc["name"])
+            vlib.write_programs(pf, programs)
+            rc, out, dt = vlib.run([vhx, "fault", "-programs", pf, "-o", tf, "-seed", str(seed), "-perprog", str(6 if quick else 24)], timeout=3000, check=False,
+                                   env=dict(os.environ, TMPDIR=work.sub("roots-fault")))
+            m = re.search(r"(\d+) programs, (\d+) fs calls, (\d+) fault runs, (\d+) events, kinds (\{.*\})", out)
+            if rc != 0 or not m:
+                raise Inconclusive("fault harness failed:\n" + out[-3000:])
+            if int(m.group(3)) < len(programs):
+                raise Inconclusive("fault harness: only %s fault runs for %d programs" % (m.group(3), len(programs)))
+            v = vlib.validate(work, "fault-" + sc["name"], tf, {"FAULT"})
+            for kd, c in json.loads(m.group(5)).items():
+                kinds[kd] = kinds.get(kd, 0) + c
+            events += int(m.group(4))
+            runs += int(m.group(3))
+            log("fault scenario %s: %d programs, %s fs calls, %s fault runs, %s events, %d failing traces (exec %.1fs, tlc %.1fs)" % (
+                sc["name"], len(programs), m.group(2), m.group(3), m.group(4), len(v["fails"]), dt, v["tlc"]["wall"]))
+            for f in v["fails"]:
+                pid = f["trace"].rsplit("@", 1)[0]
+                base, k = pid.rsplit("-f", 1)
+                prog = next(q for q in programs if q["id"] == base)
+                path = vlib.save_replay(prop, "fault-%s" % pid, {"property": prop, "kind": "fault", "seed": seed, "fault_at_fs_call": int(k), "failure": f, "program": prog})
+                violations.append((path, f))
+            os.remove(tf)
+        return {"violations": violations, "events": events, "traces": runs,
+                "note": "%d histories on the directory store during which exactly one mutating file system call of the store (%s) failed once with EIO, at a seeded sample of the "
+                        "calls of each history; the request that met the fault may answer anything, it is repeated once, the history goes on and ends with a restart; "
+                        "TraceRegistry binds the state after the faulted request to the observation and judges it with fault.safe (nothing held is lost, nothing foreign appears), "
+                        "integrity, disk.* and sess, everything after it strictly; faults met: %s" % (runs, ", ".join("%s %d" % kv for kv in sorted(counts.items()) if kv[1]), json.dumps(kinds, sort_keys=True))}
+    return fn
+
+
 def c02(prop, tier, seed, work):
     scs = [
         dict(name="push", profile="push", contents=["m1", "m2", "x1", "a1"], algs=["sha256"], depth=(14, 24), num=(40, 400),
@@ -317,7 +385,8 @@ def c02(prop, tier, seed, work):
     return histories(prop, tier, seed, work, scs,
                      "trace validation of TLC-generated histories against Registry + exhaustive model check",
                      "a history is non-trivial if it contains at least one manifest push; distinct = distinct operation sequences",
-                     {"ManPut"})
+                     {"ManPut"}, extras=[fault_extras([
+                         dict(name="pushF", profile="push", contents=["m1", "a1", "x1"], algs=["sha256"], depth=(10, 16), num=(12, 60), nrepos=1)])])
 
 
 CHECKS["C02"] = c02
@@ -478,7 +547,8 @@ def c08(prop, tier, seed, work):
         scs.append(dict(name="sessx%d" % mx, profile="sessx", contents=["b1", "b2"], algs=["sha256"], depth=(30, 44), num=(14, 150),
                         stores=["mem", "dir"], obs=["sess", "disk"], cfg={"uploadMax": mx}, harness=build_vclock))
     return histories(prop, tier, seed, work, scs, "", "a history is non-trivial if it sends at least one PATCH; distinct = distinct operation sequences",
-                     {"UpPatch"})
+                     {"UpPatch"}, extras=[fault_extras([
+                         dict(name="sessF", profile="sess", contents=["b1", "b2"], algs=["sha256"], depth=(12, 18), num=(14, 70), nrepos=1)])])
 
 
 CHECKS["C08"] = c08
